@@ -357,7 +357,7 @@ func c13SeqCheck(res *verifrt.Result, s *c13Sys, hist []verifrt.Event) {
 
 type c13Pkt struct {
 	Op        int    `json:"arp_operation"`
-	Dst       string `json:"ethernet_destination"` // broadcast | own | other
+	Dst       string `json:"ethernet_destination"` // broadcast | own | other | ipv4-multicast | ipv6-multicast | almost-broadcast | other-local-admin | own-but-last-octet
 	Target    string `json:"target"`               // held-covered | held-uncovered | not-held
 	Malformed string `json:"malformed,omitempty"`  // "", short, ethertype
 	Intf      string `json:"interface"`
@@ -374,7 +374,10 @@ func c13PktCheck(res *verifrt.Result, p c13Pkt) {
 	if p.Intf == "eth1" {
 		own = macEth1
 	}
-	dst := map[string]net.HardwareAddr{"broadcast": bcast, "own": own, "other": macOther}[p.Dst]
+	dst := map[string]net.HardwareAddr{"broadcast": bcast, "own": own, "other": macOther,
+		// group addresses that are not the broadcast address, an almost-broadcast address, another unicast address with an odd second octet
+		"ipv4-multicast": {0x01, 0x00, 0x5e, 0x00, 0x00, 0x01}, "ipv6-multicast": {0x33, 0x33, 0x00, 0x00, 0x00, 0x01}, "almost-broadcast": {0xff, 0xff, 0xff, 0xff, 0xff, 0xfe},
+		"other-local-admin": {0x02, 0x01, 0x02, 0x03, 0x04, 0x05}, "own-but-last-octet": {own[0], own[1], own[2], own[3], own[4], own[5] ^ 1}}[p.Dst]
 	target := map[string]string{"held-covered": "10.0.0.5", "held-uncovered": "10.0.0.4", "not-held": "10.0.0.77"}[p.Target]
 	if p.Intf == "eth0" && p.Target == "held-uncovered" {
 		target = "10.0.0.4" // covered on eth0: then it counts as covered
@@ -411,8 +414,8 @@ func c13PktCheck(res *verifrt.Result, p c13Pkt) {
 			why = "malformed-frame"
 		case p.Op != 1:
 			why = fmt.Sprintf("arp-operation-%d-is-not-a-request", p.Op)
-		case p.Dst == "other":
-			why = "ethernet-destination-is-another-host"
+		case p.Dst != "broadcast" && p.Dst != "own":
+			why = "ethernet-destination-is-" + p.Dst
 		case !coveredHere:
 			why = "address-" + p.Target
 		}
@@ -637,7 +640,7 @@ func TestVerif_C13(t *testing.T) {
 	}
 	if (part == "" || part == "pkt") && verifrt.Shard() == 0 {
 		for op := 0; op <= 10; op++ {
-			for _, dst := range []string{"broadcast", "own", "other"} {
+			for _, dst := range []string{"broadcast", "own", "other", "ipv4-multicast", "ipv6-multicast", "almost-broadcast", "other-local-admin", "own-but-last-octet"} {
 				for _, tg := range []string{"held-covered", "held-uncovered", "not-held"} {
 					for _, mal := range []string{"", "short", "ethertype"} {
 						for _, intf := range []string{"eth0", "eth1"} {
